@@ -320,10 +320,18 @@ def replay(pyhf, backend, precision, chunk, header, seed):
         canon_same = 1 in case["canon"]
         vtag = f"variant:{case['vd']['kind']}" + (f":{case['vd']['how']}" if case["vd"]["how"] else "")
 
-        if phase == "verified":
+        if phase in ("verified", "reverified"):
             if case["vd"]["kind"] != "same":
                 out["nontrivial"] += 1
             try:
+                if phase == "reverified":
+                    # history: the reference workspace was verified successfully, then THE SAME OBJECT is changed in place
+                    obj = copy.deepcopy(recorded[0])
+                    ps.verify(obj)
+                    obj.clear()
+                    obj.update(copy.deepcopy(w))
+                    w = obj
+                    w_before = json.dumps(w)
                 ret = ps.verify(w)
                 err = None
             except Exception as e:  # noqa: BLE001
